@@ -258,6 +258,17 @@ static void unblock_waiters(const void *obj) {
     for (int i = 0; i < g_nthreads; i++) if (TH[i].state == ST_BLOCKED && TH[i].blocked_on == obj) { TH[i].state = ST_RUNNABLE; TH[i].blocked_on = nullptr; }
 }
 
+// A read that repeats the previous event of the same thread exactly (same bytes, same site, nothing in between - not
+// even a scheduling point of another thread) adds nothing: the detector's state and the set of reachable schedules
+// are the same.  This collapses table-scan loops (is_tld compares the same input string 1591 times) into one event.
+static thread_local uintptr_t t_last_a = 0; static thread_local size_t t_last_n = 0; static thread_local uintptr_t t_last_pc = 0; static thread_local uint64_t t_last_step = ~0ULL;
+static inline bool repeat_read(uintptr_t a, size_t n, bool is_write, uintptr_t pc) {
+    if (!is_write && a == t_last_a && n == t_last_n && pc == t_last_pc && g_step == t_last_step) return true;
+    return false;
+}
+static inline void note_event(uintptr_t a, size_t n, bool is_write, uintptr_t pc) {
+    if (is_write) { t_last_a = 0; t_last_step = ~0ULL; } else { t_last_a = a; t_last_n = n; t_last_pc = pc; t_last_step = g_step; }
+}
 static inline bool active() { return t_tid >= 0 && t_in_sut > 0 && g_mode != 0 && t_in_rt == 0; }
 
 static void ev_hash(uint32_t pc) {
@@ -273,12 +284,14 @@ static void on_access(uintptr_t a, size_t n, bool is_write, uintptr_t pc_abs) {
     if (a >= me.stack_lo && a < me.stack_hi) return;        // own stack
     if (is_readonly(a)) return;
     if (g_mode == 1) { g_seq_steps++; return; }
+    if (repeat_read(a, n, is_write, pc_abs)) return;
     uint32_t pc = (uint32_t)(pc_abs - g_base);
     g_hot = (__start_eavdata && a >= (uintptr_t)__start_eavdata && a < (uintptr_t)__stop_eavdata) || (__start_eavbss && a >= (uintptr_t)__start_eavbss && a < (uintptr_t)__stop_eavbss);
     sched_point();
     g_hot = false;
     ev_hash(pc);
     for (size_t i = 0; i < n; i++) check_byte(t_tid, a + i, is_write, pc);
+    note_event(a, n, is_write, pc_abs);
 }
 
 static void on_range(const void *p, size_t n, bool is_write, uintptr_t pc_abs) {
@@ -289,11 +302,13 @@ static void on_range(const void *p, size_t n, bool is_write, uintptr_t pc_abs) {
     if (a >= me.stack_lo && a < me.stack_hi) return;
     if (is_readonly(a)) return;
     if (g_mode == 1) { g_seq_steps++; return; }
+    if (repeat_read(a, n, is_write, pc_abs)) return;
     uint32_t pc = (uint32_t)(pc_abs - g_base);
     sched_point();
     ev_hash(pc);
     if (n > 65536) n = 65536;
     for (size_t i = 0; i < n; i++) check_byte(t_tid, a + i, is_write, pc);
+    note_event(a, n, is_write, pc_abs);
 }
 
 static void on_plain_point(uintptr_t pc_abs) {      // scheduling point without a memory access
